@@ -104,3 +104,24 @@ Fixpoint batch_key (c : carry) (k : key) (j : nat) : key :=
             | Stale => batch_key c k j'
             end
   end.
+
+(* ---- optim_flat around the loop (optim.py, "Pre-process inputs" and "Set final position and
+   model state"): without a validation model the loop runs with patience := max_iter (so the early
+   stopping rule can never fire), the user's patience is restored before the best iteration is looked
+   up; the returned position is the recorded position at the best iteration if
+   restore_best_position, otherwise the position of the last iteration. ---- *)
+Record optim_out := mkOut { out_iter : nat; out_best : Z; out_pos_index : Z; out_hist : list Q }.
+
+Definition loop_stopper (s : stopper) (has_validation : bool) : stopper :=
+  if has_validation then s else mkStopper (max_iter s) (max_iter s) (atol s) (rtol s).
+
+Definition optim_flat_model (s : stopper) (has_validation restore : bool) (loss : nat -> Q)
+  : option optim_out :=
+  match optim_loop (loop_stopper s has_validation) loss with
+  | None => None
+  | Some (j, h) =>
+      match which_best s j h with
+      | None => None
+      | Some b => Some (mkOut j b (if restore then b else Z.of_nat j) h)
+      end
+  end.
